@@ -57,6 +57,8 @@ def single_estimators(d, ctx):
     lead = gen.draw_lead(d)
     D = d.int(2, 6)
     N = d.int(2 * D + 2, 2 * D + 25)
+    if which == 'cacg-fixed-point':
+        N = d.int(3 * D + 2, 3 * D + 25)
     rng = d.rng()
     complex_ = which in ('ccsg', 'watson', 'cacg', 'cacg-fixed-point')
     y, _ = mm.cluster_data(rng, lead, 2, N, D, complex_, d.choice([0.1, 0.5, 1.0]))
@@ -124,6 +126,9 @@ def single_estimators(d, ctx):
     else:
         # repeated application converges to B ~ (D/N) sum z z^H / (z^H B^-1 z)
         m = ctx.lib(dist.ComplexAngularCentralGaussianTrainer().fit, y, iterations=500)
+        m_prev = ctx.lib(dist.ComplexAngularCentralGaussianTrainer().fit, y, iterations=450)
+        if np.max(np.abs(np.asarray(m.covariance) - np.asarray(m_prev.covariance))) > 1e-9:
+            raise Borderline('Tyler iteration still moving after 450 steps')
         for idx in np.ndindex(*lead):
             z = oe.unit(y[idx])
             B = np.asarray(m.covariance)[idx]
@@ -538,8 +543,12 @@ def _repetition(d, ctx, kind, **kw):
     rep, idx = _repeat_case(case, s)
     m2 = ctx.lib(mm.fit, rep, clause='repeated-data-raises')
     p1, p2 = mm.params(m1, case), mm.params(m2, rep)
+    # with a clipping constant the plain-mean weight update (no saliency) and
+    # the L1-normalised one (saliency) differ by up to K*eps per iteration
+    eps = case.opts.get('affiliation_eps', 0.0) or 0.0
+    slack = 20 * case.K * eps * case.iterations
     mm.compare_params(p1, p2, 'integer-saliency-differs-from-repetition',
-                      rtol=1e-6, atol=1e-8, kind=kind)
+                      rtol=1e-6 + slack, atol=1e-8 + slack, kind=kind)
     ctx.nontrivial(True)
 
 
